@@ -90,3 +90,14 @@ Example string_ops_examples :
   apply_op StringContains "alpha" "x" = false /\ apply_op StringEquals "alpha" "alpha" = true /\
   apply_op StringEquals "alpha" "alph" = false.
 Proof. vm_compute. repeat split; reflexivity. Qed.
+
+Lemma string_ops_spec : forall s p : string,
+  (apply_op StringEquals s p = true <-> s = p) /\
+  (apply_op StringStartsWith s p = true <-> exists t, s = p ++ t) /\
+  (apply_op StringEndsWith s p = true <-> exists t, s = t ++ p) /\
+  (apply_op StringContains s p = true <-> exists a b, s = a ++ p ++ b).
+Proof.
+  intros s p. repeat split; intros H;
+    first [apply (apply_op_spec StringEquals) | apply (apply_op_spec StringStartsWith)
+          | apply (apply_op_spec StringEndsWith) | apply (apply_op_spec StringContains)]; exact H.
+Qed.
